@@ -9,18 +9,22 @@ ids=("$@"); [ ${#ids[@]} -eq 0 ] && ids=($(ls seeded | grep -E '^C[0-9]+-[0-9]+$
 git -C /repo worktree remove --force $WT 2>/dev/null; git -C /repo worktree add -q --detach $WT HEAD || exit 2
 : > "$OUT.tmp"
 for id in "${ids[@]}"; do
-  P=${id%%-*}
+  # "C11-2:C20" runs check C20 against seeded change C11-2; "C10-1::thorough" selects the tier
+  spec=$id; tier=quick
+  case "$spec" in *::*) tier=${spec##*::}; spec=${spec%%::*};; esac
+  id=${spec%%:*}; P=${id%%-*}
+  case "$spec" in *:*) P=${spec##*:};; esac
   git -C $WT reset -q --hard; git -C $WT checkout -q --detach "$(git -C /repo rev-parse HEAD)"
   if ! (git -C $WT apply /verif/seeded/$id/patch.diff 2>/dev/null || git -C $WT apply --3way /verif/seeded/$id/patch.diff 2>/dev/null); then
     printf "%s\tpatch-does-not-apply\t\n" "$id" >> "$OUT.tmp"; continue
   fi
   EV=/tmp/sweep-ev-$$; RP=/tmp/sweep-rp-$$; mkdir -p $EV $RP
-  log=/tmp/sweep-$id.log
-  VERIF_REPO=$WT VERIF_EVIDENCE_DIR=$EV VERIF_REPLAYS_DIR=$RP timeout 2400 ./check $P --tier quick > $log 2>&1
+  log=/tmp/sweep-$id-$P-$tier.log
+  VERIF_REPO=$WT VERIF_EVIDENCE_DIR=$EV VERIF_REPLAYS_DIR=$RP timeout 2400 ./check $P --tier $tier > $log 2>&1
   rc=$?
   sigs=$(grep "signature:" $log | sed 's/.*signature: //' | sort -u | head -4 | tr '\n' ';')
-  printf "%s\t%s\t%s\n" "$id" "$rc" "$sigs" >> "$OUT.tmp"
-  echo "$id rc=$rc $sigs"
+  printf "%s\t%s\t%s\t%s\t%s\n" "$id" "$P" "$tier" "$rc" "$sigs" >> "$OUT.tmp"
+  echo "$id check=$P tier=$tier rc=$rc $sigs"
 done
 mv "$OUT.tmp" "$OUT"
 git -C /repo worktree remove --force $WT
